@@ -219,10 +219,10 @@ func (v *evalr) conj(ct, out *rlwe.Ciphertext) error {
 
 // add is the function handed to InnerFunction.
 func (v *evalr) add(a, b, c *rlwe.Ciphertext) error {
-	switch v.e.cfg.Scheme {
-	case "ckks":
+	switch {
+	case v.ck != nil:
 		return v.ck.Add(a, b, c)
-	case "bgv":
+	case v.bg != nil:
 		return v.bg.Add(a, b, c)
 	}
 	lvl := min(a.Level(), b.Level(), c.Level())
